@@ -15,7 +15,9 @@ VERIF = os.path.dirname(os.path.dirname(os.path.abspath(__file__)))
 
 
 def sh(cmd, **kw):
-    return subprocess.run(cmd, shell=True, capture_output=True, text=True, **kw)
+    # evidence of runs against a seeded change must never replace the evidence of the unchanged tree
+    env = dict(os.environ, VERIF_EVIDENCE_DIR="/tmp/verif_evidence_seeded")
+    return subprocess.run(cmd, shell=True, capture_output=True, text=True, env=env, **kw)
 
 
 def main():
